@@ -1,6 +1,7 @@
 """C18 - EBLIF files are read faithfully and survive write-then-read (Engine B)."""
 import itertools
 import os
+import re
 import time
 
 from vlib import core, engine_b, wf, eblif_writer as ew, ecanon
@@ -165,6 +166,17 @@ def worker(case):
     d = ecanon.diff(got, back, check_prims=False)
     if d:
         probs.append(("round-trip-differs:%s:%s" % (d[0], tag), d[1][:400]))
+    # written without .cname lines (instances are then named by the reader): types and attached data stay
+    if kind != "bundled" and order == sorted(order) and not cont and models == "after":
+        try:
+            with core.quiet():
+                s.compose(n, out, write_eblif_cname=False)
+                m3 = s.parse(out)
+            data = lambda e: sorted((v[0], v[1], sorted(v[2].items()), sorted(v[3].items())) for v in e["insts"].values())
+            if data(ecanon.extract(m3)) != data(got):
+                probs.append(("round-trip-without-cname-differs:instance-data:" + tag, "expected %r got %r" % (data(got), data(ecanon.extract(m3)))))
+        except Exception as ex:
+            probs.append(("round-trip-without-cname-raised:%s:%s" % (type(ex).__name__, tag), repr(ex)[:300]))
     # parse -> edit -> write -> read: every instance is renamed, one is copied under a new name
     for x in list(n.top_instance.reference.children):
         x.name = x.name + "_r"
@@ -191,6 +203,15 @@ def worker(case):
         ead2 = dict(ead, items=[it for it in ead["items"] if it["kind"] != "conn"])
         order2 = list(range(len(ead2["items"])))
         nt += 1
+        # ... also when a draft of the design was refused in between: the same text with every .cname alike (two
+        # instances under one name), refused after its .conn statements had been read
+        names = re.findall(r"^\.cname (\S+)$", text, re.M)
+        if len(set(names)) > 1:
+            draft = re.sub(r"^\.cname \S+$", ".cname " + names[0], text, flags=re.M)
+            try:
+                parse_text(draft)
+            except Exception:
+                nt += 1
         try:
             n2 = parse_text(ew.render(ead2, order=order2, models=models))
             exp2 = ew.expected(ead2, models, order2)
